@@ -475,6 +475,25 @@ func runCase(c *kase, a *acc) {
 			a.fail("roundtrip/not-equal/Import", c, "Import(h.Export()).Equals(h)", nil, []bool{e1, e2}, "true")
 		} else if h2.TotalCount() != total {
 			a.fail("roundtrip/total-mismatch/Import", c, "Import(h.Export()).TotalCount()", nil, h2.TotalCount(), fmt.Sprint(total))
+		} else {
+			// an Equal histogram answers every query like the original
+			cur = "Max"
+			a.asserted += 3
+			if g, w := h2.Max(), h.Max(); g != w {
+				a.fail("roundtrip/answers-differ/Max", c, "Import(h.Export()).Max()", nil, g, fmt.Sprint(w))
+			}
+			cur = "Min"
+			if g, w := h2.Min(), h.Min(); g != w {
+				a.fail("roundtrip/answers-differ/Min", c, "Import(h.Export()).Min()", nil, g, fmt.Sprint(w))
+			}
+			cur = "ValueAtQuantile"
+			for _, q := range []float64{0.001, 50, 100} {
+				if g, w := h2.ValueAtQuantile(q), h.ValueAtQuantile(q); g != w {
+					a.fail("roundtrip/answers-differ/ValueAtQuantile", c, "Import(h.Export()).ValueAtQuantile", q, g, fmt.Sprint(w))
+					break
+				}
+			}
+			a.calls += 10
 		}
 		cur = "New"
 		e := hdrhist.New(c.sh.Min, c.sh.Max, c.sh.Sig)
@@ -493,6 +512,17 @@ func runCase(c *kase, a *acc) {
 		}
 		if !m1 || !m2 {
 			a.fail("merge/not-equal/Merge", c, "e := New(shape); e.Merge(h); e.Equals(h)", nil, []bool{m1, m2}, "true")
+		} else if dropped == 0 {
+			cur = "Max"
+			a.asserted += 2
+			if g, w := e.Max(), h.Max(); g != w {
+				a.fail("merge/answers-differ/Max", c, "e := New(shape); e.Merge(h); e.Max()", nil, g, fmt.Sprint(w))
+			}
+			cur = "Min"
+			if g, w := e.Min(), h.Min(); g != w {
+				a.fail("merge/answers-differ/Min", c, "e := New(shape); e.Merge(h); e.Min()", nil, g, fmt.Sprint(w))
+			}
+			a.calls += 4
 		}
 	}
 	if c.rt && c.sym && !c.light && len(model) <= 2 {
